@@ -227,8 +227,10 @@ META = dict(
                 'equals the input and is a range exactly when equally spaced (solver obligations); all listed kinds of malformed construction requests are rejected; (b) one step of every arithmetic operator between '
                 'Obs / CObs / int / float / numpy float / complex in both operand orders, powers and elementary functions, and of the other producers (reweight, correlate, merge_obs, find_root, jackknife import, '
                 'json import, vector-valued derived_observable) from well-formed operands: the structural invariant and the type closure are asserted on every result on every path. The same invariant is asserted '
-                'on every result inside the checks of C01, C05, C07-C09, C11, C13, C17.',
-    bounds='constructor: 5 (thorough 6) configuration numbers in [0,7] ([0,9]); closure: two operand layouts; structure enumerated, values symbolic (the solver has little to decide in (b): exhaustive over the enumerated structure).',
+                'on every result inside the checks of C01, C05, C07-C09, C11, C13, C17. (c) names: CrossHair (symbolic Python strings on z3 sequences) runs the REAL Obs / Covobs constructors on symbolic chain / covariance '
+                'names: a request is accepted exactly when the names are unique and belong to one ensemble (text before the first separator), a covariance name exactly when it does not contain the separator - '
+                '"Confirmed over all paths" within the stated string lengths; counterexamples are replayed as plain calls.',
+    bounds='constructor: 5 (thorough 6) configuration numbers in [0,7] ([0,9]); names: 1-2 names of <= 2 characters, 3 names of <= 1 character, covariance names of <= 4 characters (any unicode characters; 2 names of <= 3 characters are not confirmed within 60 s); closure: two operand layouts; structure enumerated, values symbolic (the solver has little to decide in (b): exhaustive over the enumerated structure).',
     outside=['pickle', 'results of fits and readers are covered through the checks of C07/C08/C17 (compare -> check_wellformed)'],
     stubs=['numpy shim', 'fsolve / rapidjson contracts for the producers'],
     assumptions=[],
